@@ -190,13 +190,20 @@ def _generalised_insertions(F, rep, setname):
             shape = False
             fl = Flow(fn, body)
             for p in cond:
+                # the test on the value's form: a match over Expression, written in the condition itself, behind a local,
+                # or in a helper (which the fact loader has put back in place)
+                cands = [m_ for m_ in nodes(p["c"], "Match")]
                 for x in nodes(p["c"], "Path"):
                     if x.get("res") == "Local":
                         src = fl.trace(x)
-                        if isinstance(src, dict) and src.get("k") == "Match":
-                            vs = {last(pat_variant(alt) or "_") for a in src["arms"] for alt in pat_alternatives(a["pat"])
-                                  if peel(a["body"]).get("v") is True or peel(a["body"]).get("k") == "MethodCall"}
-                            shape = vs <= {"Function", "Read"} and "Function" in vs
+                        if isinstance(src, dict):
+                            cands += [m_ for m_ in nodes(src, "Match")]
+                for src in cands:
+                    if "name_resolution::Expression" not in (src.get("scrut_ty") or ""):
+                        continue
+                    vs = {last(pat_variant(alt) or "_") for a in src["arms"] for alt in pat_alternatives(a["pat"])
+                          if peel(a["body"]).get("v") is True or peel(a["body"]).get("k") == "MethodCall"}
+                    shape = shape or (vs <= {"Function", "Read"} and "Function" in vs)
             good = after and immut and shape
             notes.append("definition(): after the value is checked=%s, immutable only=%s, function literal / generalised name only=%s" % (after, immut, shape))
         elif fname == "outer_statement":
